@@ -84,6 +84,11 @@ pub(crate) fn note_err(err: &dyn std::fmt::Debug) {
         .chars()
         .take_while(|c| c.is_alphanumeric() || *c == '_')
         .collect();
+    if class == "Internal" {
+        // The run loop returns on internal errors without reporting the message as handled; the
+        // class must not leak into the next report (all simulated replicas share this thread).
+        return;
+    }
     LAST_ERR.with(|x| *x.borrow_mut() = Some(class));
 }
 
